@@ -560,4 +560,57 @@ Section Rules.
     intros Hd Hr. rewrite (squeeze_sound _ k R s Hd). apply value_pointwise. intros s'.
     cbn [map]. rewrite !tprod_cons. cbn [gauge_vec sel scale TN.tval]. rewrite upd_same, <- Hr. ring.
   Qed.
+  (* ---- contracting a GROUP of tensors (loop_simplify / pair_simplify: tensor_contract of the tensors with output_inds=oix) ---- *)
+  (* The group is replaced by one tensor in which the labels S have been summed.  Side condition - exactly what
+     compute_contracted_inds(..., output_inds) must guarantee: a summed label occurs on no tensor outside the group
+     and is not needed later (it is not an outer label: outer labels are simply never in S ++ R). *)
+  Definition contractN (ts : list tensor) (S : list ind) : tensor :=
+    mkT (filter (fun i => negb (existsb (Nat.eqb i) S)) (flat_map tinds ts)) (sum_over S (tprod ts)).
+
+  Lemma tprod_app ts us s : tprod (ts ++ us) s = tprod ts s * tprod us s.
+  Proof. induction ts as [|t ts IH]; [unfold TN.tprod; cbn; ring|]. cbn [app]. rewrite !tprod_cons, IH. ring. Qed.
+
+  Theorem group_contract_sound group others S R s :
+    Forall wf group -> Forall wf others ->
+    (forall i, In i S -> ~ In i R) ->
+    (forall i t, In i S -> In t others -> ~ In i (tinds t)) ->
+    value (group ++ others) (S ++ R) s = value (contractN group S :: others) R s.
+  Proof.
+    intros Hg Ho Hd Hfree. unfold TN.value. rewrite sum_over_app.
+    rewrite (TN.sum_over_comm K k0 k1 kadd kmul ksub kopp Kring dim).
+    - apply sum_over_ext_fun. intros s1. rewrite tprod_cons. cbn [contractN TN.tval].
+      rewrite (sum_over_ext_fun S _ (fun s' => tprod group s' * tprod others s')) by (intros; apply tprod_app).
+      apply (TN.sum_over_factor K k0 k1 kadd kmul ksub kopp Kring dim). intros i Hi.
+      apply indep_tprod; [exact Ho|]. intros t Ht. apply Hfree; assumption.
+    - apply ext_tprod. apply Forall_app. split; assumption.
+    - exact Hd.
+  Qed.
+
+  (* the labels a group contraction may sum, computed as compute_contracted_inds does: a label of the group is KEPT iff
+     it is a declared outer label or it occurs on a tensor outside the group *)
+  Definition group_summed (group others : list tensor) (outs : list ind) : list ind :=
+    filter (fun i => negb (has i outs) && negb (existsb (fun t => has i (tinds t)) others))
+           (nodup Nat.eq_dec (flat_map tinds group)).
+
+  Lemma has_true i l : In i l -> has i l = true.
+  Proof. intros H. apply existsb_exists. exists i. split; [exact H | apply Nat.eqb_refl]. Qed.
+
+  (* with that choice the side conditions hold by construction, whatever the outer labels are - in particular an outer
+     label that is also a bond inside the group is never summed *)
+  Theorem group_contract_keeping_outputs_sound group others outs R s :
+    Forall wf group -> Forall wf others ->
+    (forall i, In i (group_summed group others outs) -> ~ In i R) ->
+    value (group ++ others) (group_summed group others outs ++ R) s
+    = value (contractN group (group_summed group others outs) :: others) R s
+    /\ forall o, In o outs -> ~ In o (group_summed group others outs).
+  Proof.
+    intros Hg Ho Hd. split.
+    - apply group_contract_sound; try assumption. intros i t Hi Ht Hin.
+      apply filter_In in Hi. destruct Hi as [_ Hb]. apply andb_true_iff in Hb. destruct Hb as [_ Hb].
+      apply negb_true_iff in Hb.
+      assert (E : existsb (fun t0 => has i (tinds t0)) others = true); [|congruence].
+      apply existsb_exists. exists t. split; [exact Ht | apply has_true; exact Hin].
+    - intros o Hoin Hs. apply filter_In in Hs. destruct Hs as [_ Hb]. apply andb_true_iff in Hb. destruct Hb as [Hb _].
+      apply negb_true_iff in Hb. rewrite (has_true o outs Hoin) in Hb. discriminate.
+  Qed.
 End Rules.
